@@ -28,21 +28,22 @@ VARIABLES l,        \* next line
           pdiv, psteps,  \* progress counters the trace implies (post-warm-up divergences, steps)
           emptySeen,     \* per chain: its mailbox held no confirmed message at some instant since the
                          \* chain's previous event (a poll is logged after it happened)
+          mustfail,      \* chains whose density raised an unrecoverable error inside the current draw
           lastcb,        \* per chain: finished draws reported by the last progress callback
           snap           \* per chain: rec[i] if the chain was quiescent when the controller took the
                          \* current command, else -1
 
-tvars == <<vars, l, unconf, fullpos, pdiv, psteps, emptySeen, snap, lastcb>>
+tvars == <<vars, l, unconf, fullpos, pdiv, psteps, emptySeen, snap, lastcb, mustfail>>
 R == Rec[l]
 IsEvent(e) == l <= Len(Rec) /\ Rec[l].ev = e /\ l' = l + 1
-Silent == UNCHANGED <<l, unconf, fullpos, pdiv, psteps, emptySeen, snap, lastcb>>
-Keep == UNCHANGED <<unconf, fullpos, pdiv, psteps, emptySeen, snap, lastcb>>
-KeepBut(i) == /\ UNCHANGED <<unconf, fullpos, pdiv, psteps, snap, lastcb>>
+Silent == UNCHANGED <<l, unconf, fullpos, pdiv, psteps, emptySeen, snap, lastcb, mustfail>>
+Keep == UNCHANGED <<unconf, fullpos, pdiv, psteps, emptySeen, snap, lastcb, mustfail>>
+KeepBut(i) == /\ UNCHANGED <<unconf, fullpos, pdiv, psteps, snap, lastcb, mustfail>>
               /\ emptySeen' = [emptySeen EXCEPT ![i] = (Len(mailbox'[i]) <= unconf[i])]
 
 Zero == [i \in Chains |-> 0]
 TInit == TLCSet(2, 0) /\ Init /\ l = 1 /\ unconf = Zero /\ fullpos = <<>> /\ pdiv = Zero /\ psteps = Zero
-         /\ emptySeen = [i \in Chains |-> TRUE] /\ snap = [i \in Chains |-> -1] /\ lastcb = [i \in Chains |-> 0]
+         /\ emptySeen = [i \in Chains |-> TRUE] /\ snap = [i \in Chains |-> -1] /\ lastcb = [i \in Chains |-> 0] /\ mustfail = {}
 
 \* ---- run boundaries -----------------------------------------------------
 TrReset ==
@@ -65,7 +66,7 @@ TrReset ==
     /\ results' = <<>> /\ senders' = NChains /\ cdone' = "no" /\ failed' = {}
     /\ win' = FALSE /\ quota' = Zero /\ since' = Zero
     /\ unconf' = Zero /\ fullpos' = R.fullpos /\ pdiv' = Zero /\ psteps' = Zero
-    /\ emptySeen' = [i \in Chains |-> TRUE] /\ snap' = [i \in Chains |-> -1] /\ lastcb' = [i \in Chains |-> 0]
+    /\ emptySeen' = [i \in Chains |-> TRUE] /\ snap' = [i \in Chains |-> -1] /\ lastcb' = [i \in Chains |-> 0] /\ mustfail' = {}
 
 \* ---- user ---------------------------------------------------------------
 TrUCall ==
@@ -112,7 +113,7 @@ TrCtlRecv ==
     /\ snap' = [i \in Chains |->
                   IF i \notin failed /\ (ch[i].st = "done" \/ (ch[i].st = "parked" /\ mailbox[i] = <<>>))
                   THEN rec[i] ELSE -1]
-    /\ UNCHANGED <<unconf, fullpos, pdiv, psteps, emptySeen, lastcb>>
+    /\ UNCHANGED <<unconf, fullpos, pdiv, psteps, emptySeen, lastcb, mustfail>>
 
 \* the progress callback, called on the controller thread at start-up, whenever `rate` has
 \* elapsed without a command, and once more when the command channel is closed: per chain the
@@ -127,7 +128,7 @@ TrCallback ==
           /\ R.total[i + 1] = Draws
           /\ R.finished[i + 1] > 0 => R.started[i + 1]
     /\ lastcb' = [i \in Chains |-> R.finished[i + 1]]
-    /\ UNCHANGED <<vars, unconf, fullpos, pdiv, psteps, emptySeen, snap>>
+    /\ UNCHANGED <<vars, unconf, fullpos, pdiv, psteps, emptySeen, snap, mustfail>>
 
 TrCtlFwd ==
     /\ IsEvent("ctl_fwd")
@@ -135,13 +136,13 @@ TrCtlFwd ==
     /\ R.msg = (IF cpc.cmd = "pause" THEN "Pause" ELSE "Resume")
     /\ CtlForward
     /\ unconf' = [unconf EXCEPT ![R.i] = @ + 1]
-    /\ UNCHANGED <<fullpos, pdiv, psteps, emptySeen, snap, lastcb>>
+    /\ UNCHANGED <<fullpos, pdiv, psteps, emptySeen, snap, lastcb, mustfail>>
 
 TrCtlFwdDone ==
     /\ IsEvent("ctl_fwd_done")
     \* (the receiver may already have taken the message)
     /\ unconf' = [unconf EXCEPT ![R.i] = IF @ > 0 THEN @ - 1 ELSE 0]
-    /\ UNCHANGED <<vars, fullpos, pdiv, psteps, emptySeen, snap, lastcb>>
+    /\ UNCHANGED <<vars, fullpos, pdiv, psteps, emptySeen, snap, lastcb, mustfail>>
 
 \* before responses_tx.send: per-chain visits of flush / inspect / progress carry no
 \* event of their own and are folded in
@@ -201,7 +202,7 @@ TrChMsg ==
     \* a popped message can no longer be unconfirmed
     /\ unconf' = [unconf EXCEPT ![R.i] = IF @ > Len(mailbox'[R.i]) THEN Len(mailbox'[R.i]) ELSE @]
     /\ emptySeen' = [emptySeen EXCEPT ![R.i] = (Len(mailbox'[R.i]) <= unconf'[R.i])]
-    /\ UNCHANGED <<fullpos, pdiv, psteps, snap, lastcb>>
+    /\ UNCHANGED <<fullpos, pdiv, psteps, snap, lastcb, mustfail>>
 
 TrChCheck ==
     /\ IsEvent("ch_check")
@@ -209,8 +210,16 @@ TrChCheck ==
     /\ ch'[R.i].st = R.to
     /\ KeepBut(R.i)
 
+\* the density of chain i raised an unrecoverable error.  During the initialisation attempts this
+\* is retried by design; inside a draw the draw must fail (C13: it must not be swallowed)
+TrFatalFired ==
+    /\ IsEvent("fatal_fired")
+    /\ mustfail' = IF R.i \in Chains /\ ch[R.i].st = "drawing" THEN mustfail \cup {R.i} ELSE mustfail
+    /\ UNCHANGED <<vars, unconf, fullpos, pdiv, psteps, emptySeen, snap, lastcb>>
+
 TrChDrawn ==
     /\ IsEvent("ch_drawn")
+    /\ R.i \notin mustfail
     /\ ChDraw(R.i, FALSE)
     /\ R.k = ch[R.i].draw
     \* C10: the draw is the one this chain produces when run alone
@@ -230,7 +239,7 @@ TrChRecorded ==
     /\ pdiv' = [pdiv EXCEPT ![R.i] = IF R.diverging /\ ~R.tuning THEN @ + 1 ELSE @]
     /\ psteps' = [psteps EXCEPT ![R.i] = @ + R.num_steps]
     /\ emptySeen' = [emptySeen EXCEPT ![R.i] = (Len(mailbox'[R.i]) <= unconf[R.i])]
-    /\ UNCHANGED <<unconf, fullpos, snap, lastcb>>
+    /\ UNCHANGED <<unconf, fullpos, snap, lastcb, mustfail>>
 
 TrChResult ==
     /\ IsEvent("ch_result")
@@ -266,7 +275,7 @@ SilentNext ==
 
 TNext == \/ TrReset \/ TrUCall \/ TrURetCmd \/ TrURetWait \/ TrURetAbort
          \/ TrCtlRecv \/ TrCallback \/ TrCtlFwd \/ TrCtlFwdDone \/ TrCtlResp \/ TrCtlFinalize \/ TrCtlFinalized
-         \/ TrChStart \/ TrChMsg \/ TrChCheck \/ TrChDrawn \/ TrChLocked \/ TrChRecorded
+         \/ TrFatalFired \/ TrChStart \/ TrChMsg \/ TrChCheck \/ TrChDrawn \/ TrChLocked \/ TrChRecorded
          \/ TrChResult \/ TrFinal
          \/ SilentNext
 
